@@ -2010,23 +2010,26 @@ class TensorDict(TensorDictBase):
         if dim is None:
             names = copy(self.names) if self._has_names() else None
             if names is not None:
-                batch_size, names = _zip_strict(
-                    *[
-                        (size, name)
-                        for size, name in _zip_strict(batch_size, names)
-                        if size != 1
-                    ]
-                )
-            else:
-                batch_size = [size for size in batch_size if size != 1]
-            batch_size = torch.Size(batch_size)
+                # no names rather than an empty list when no batch dim is left
+                names = [
+                    name
+                    for size, name in _zip_strict(batch_size, names)
+                    if size != 1
+                ] or None
+            singletons = [i for i, size in enumerate(batch_size) if size == 1]
+            batch_size = torch.Size([size for size in batch_size if size != 1])
             if batch_size == self.batch_size:
                 return self
 
             # we only want to squeeze dimensions lower than the batch dim, and view
             # is the perfect op for this
             def _squeeze(tensor):
-                return tensor.view(*batch_size, *tensor.shape[self.batch_dims :])
+                if isinstance(tensor, TensorDictBase):
+                    # nested tensordicts keep their dim names: squeeze them dim by dim
+                    for i in reversed(singletons):
+                        tensor = tensor.squeeze(i)
+                    return tensor
+                return tensor.view((*batch_size, *tensor.shape[self.batch_dims :]))
 
             return self._fast_apply(
                 _squeeze,
